@@ -514,7 +514,11 @@ fn replicate_if_some(opt_sender: &Option<Sender<String>>, message: &String, name
     match opt_sender {
         Some(member_sender) => {
             log::debug!("Replicating {} to {}", message, name);
-            match member_sender.clone().try_send(message.to_string()) {
+            // The link is read line by line on the other side and every line is executed with the
+            // link's cluster privileges: a message has to be exactly one line, whatever the
+            // client put into a key, a value or a node name
+            let message = message.replace(['\n', '\r'], " ");
+            match member_sender.clone().try_send(message) {
                 Ok(_) => (),
                 Err(e) => log::warn!("replicate_if_some sender.send Error: {}", e),
             }
